@@ -4,7 +4,9 @@ import json, os, subprocess, sys, tempfile, xml.etree.ElementTree as ET
 b = json.load(open("/root/.vp/BASELINE.json"))
 out = tempfile.mktemp(suffix=".xml", dir="/dev/shm")
 env = {k: v for k, v in os.environ.items() if k != "BASIC_ROBOTICS_VERIF"}
-cmd = b["cmd"].replace("<file>", out)
+root = sys.argv[1] if len(sys.argv) > 1 else "/repo"
+cmd = b["cmd"].replace("<file>", out).replace("cd /repo", "cd " + root)
+env["PYTHONPATH"] = root
 r = subprocess.run(cmd, shell=True, env=env, stdout=subprocess.PIPE, stderr=subprocess.STDOUT, text=True)
 passed = set()
 for tc in ET.parse(out).getroot().iter("testcase"):
